@@ -234,8 +234,12 @@ func eqTerm(t types.Type, x, y value) *term {
 		switch y := y.(type) {
 		case *value:
 			return tBool(x == y)
+		case *viewptr:
+			return tBool(x != nil && ptrIdentity(y) == any(x))
 		}
 		return tFalse
+	case *viewptr:
+		return tBool(ptrIdentity(x) == ptrIdentity(y))
 	case *channel:
 		return tBool(x == y.(*channel))
 	case uptr:
@@ -279,6 +283,17 @@ func ptrIdentity(p value) any {
 	case nil:
 		return (*value)(nil)
 	case *value:
+		return p
+	case *viewptr:
+		if p == nil {
+			return (*value)(nil)
+		}
+		if p.hdr != nil {
+			return p.hdr
+		}
+		if len(p.base) > 0 {
+			return &p.base[0]
+		}
 		return p
 	}
 	return p
@@ -337,6 +352,8 @@ func keyString(buf *bytes.Buffer, v value) bool {
 		fmt.Fprintf(buf, "s%d:%s;", len(v), v)
 	case *value:
 		fmt.Fprintf(buf, "p%p;", v)
+	case *viewptr:
+		fmt.Fprintf(buf, "p%p;", ptrIdentity(v))
 	case *channel:
 		fmt.Fprintf(buf, "c%p;", v)
 	case uptr:
